@@ -47,7 +47,8 @@ EXTENDS Proof
 
 CONSTANTS MaxRoots,      \* roots produced after the initial one
           MaxLife,       \* life-cycle steps (Commit, Stash, SetRoot, LoadCache, Reopen) in one behaviour
-          CopyOnAtomic   \* TRUE: design = code; FALSE: sanity configuration (seeded defect)
+          CopyOnAtomic,  \* TRUE: design = code; FALSE: sanity configuration (seeded defect)
+          Proving        \* FALSE in generation configurations: ProveAt steps are enumerated by the harness in every state
 
 VARIABLES st,      \* st[i] \in {"c", "u", "x"}: status of root i
           cur,     \* index of the trie's current root
@@ -100,7 +101,7 @@ Commit == /\ Life /\ \E i \in DOMAIN st : st[i] = "u"
           /\ Step([name |-> "Commit"])
 
 \* Trie.Stash(rollbackCache)
-Stash(rb) == /\ Life /\ prev # 0 /\ \E i \in DOMAIN st : st[i] = "u"
+Stash(rb) == /\ Life /\ prev # 0 /\ (cur # prev \/ \E i \in DOMAIN st : st[i] = "u")
              /\ st' = GiveUp(st)
              /\ cur' = prev
              /\ UNCHANGED <<hist, msg, prev, den>>
@@ -139,8 +140,8 @@ RNext == \/ \E upd \in Updates : Upd(upd) \/ Atomic(upd)
          \/ Commit
          \/ \E rb \in BOOLEAN : Stash(rb)
          \/ \E ri \in DOMAIN hist : SetRoot(ri) \/ LoadCache(ri) \/ Reopen(ri)
-         \/ \E ri \in DOMAIN hist, q \in AllKeys, enc \in Encs : ProveAt(ri, q, enc)
-         \/ RVerify
+         \/ (Proving /\ \E ri \in DOMAIN hist, q \in AllKeys, enc \in Encs : ProveAt(ri, q, enc))
+         \/ (Proving /\ RVerify)
 
 RSpec == RInit /\ [][RNext]_rvars
 
